@@ -82,8 +82,9 @@ type extCall struct {
 }
 
 type effEngine struct {
-	c   *Ctx
-	sum map[*core.FuncInfo]*effSummary
+	c        *Ctx
+	sum      map[*core.FuncInfo]*effSummary
+	visiting map[types.Object]bool
 }
 
 // externalEffects: external callees that write through an argument
@@ -249,6 +250,14 @@ func (e *effEngine) freshLocal(fi *core.FuncInfo, o types.Object, depth int) boo
 		return false
 	}
 	defs := ld.Defs[o]
+	if e.visiting == nil {
+		e.visiting = map[types.Object]bool{}
+	}
+	if e.visiting[o] {
+		return true // x = append(x, …): fresh if everything else is
+	}
+	e.visiting[o] = true
+	defer delete(e.visiting, o)
 	for _, d := range defs {
 		switch d.Kind {
 		case core.DefZero:
@@ -376,6 +385,9 @@ func (e *effEngine) recordWrite(fi *core.FuncInfo, target ast.Expr, how string, 
 	// a local with several definitions: the store may hit any of the things it aliases
 	if p != nil && p.Root != nil && len(via) < 12 {
 		if _, isParam := e.paramIndex(fi, p.Root); !isParam {
+			if e.freshLocal(fi, p.Root, 0) {
+				return
+			}
 			if alts := e.aliasTargets(fi, p); len(alts) > 0 {
 				for _, a := range alts {
 					e.recordPath(fi, a, how, pos, value, rel, via, origin, lhs, unknownRel)
@@ -399,6 +411,9 @@ func (e *effEngine) aliasTargets(fi *core.FuncInfo, p *core.Path) []*core.Path {
 		var base *core.Path
 		switch d.Kind {
 		case core.DefAssign:
+			if e.freshExpr(fi, d.Expr, 0) {
+				continue
+			}
 			base = e.c.P.PathOf(fi, d.Expr, true)
 		case core.DefRangeVal:
 			if b := e.c.P.PathOf(fi, d.Expr, true); b != nil {
